@@ -169,7 +169,8 @@ func (d *defaultValidator) validateDefaultValueValidAgainstSchema() *Result {
 		// reset explored schemas to get depth-first recursive-proof exploration
 		d.resetVisited()
 		for nm, sch := range s.spec.Spec().Definitions {
-			res.Merge(d.validateDefaultValueSchemaAgainstSchema("definitions."+nm, "body", &sch)) //#nosec
+			// walk a copy: judging a value expands the $ref under its schema in place
+			res.Merge(d.validateDefaultValueSchemaAgainstSchema("definitions."+nm, "body", scratchSchema(&sch))) //#nosec
 		}
 	}
 	return res
